@@ -265,3 +265,146 @@ Module C07_nonvacuous.
   Qed.
 End C07_nonvacuous.
 Print Assumptions C07_nonvacuous.history_applies.
+
+(* ================================================================================================================ *)
+(* The model's clean-up and merge on ARBITRARY states (placeholder keys for comments / the header / includes        *)
+(* allowed): every state read from a file with a comment is of this kind, and C07_merge_model does not cover it.     *)
+(* ================================================================================================================ *)
+From DictIO Require Import WriteProofs.
+
+(* the clean-up never touches anything reachable through ordinary keys, at every depth (this replaces the weak second
+   alternative "a dict stays a dict" of C07_clean_only_placeholders) *)
+Theorem C07_clean_keeps_ordinary_paths : forall s p x,
+  forallb ordinary_key p = true -> wf (Dict (sd_data s)) = true ->
+  get_dpath (Dict (sd_data s)) p = Some x -> (forall kvs, x <> Dict kvs) ->
+  get_dpath (Dict (sd_data (sd_clean s))) p = Some x.
+Proof. exact sd_clean_keeps_ordinary_paths. Qed.
+Print Assumptions C07_clean_keeps_ordinary_paths.
+
+(* non-vacuity: the state sc, in which the clean-up deletes a placeholder entry at the top level AND one inside a; the
+   nested ordinary leaf a.b and the top-level leaf c meet the hypotheses and are obtained from the theorem *)
+Example C07_clean_keeps_ordinary_paths_nonvacuous :
+  forallb ordinary_key [C07_ex.ka; C07_ex.kb] = true /\ wf (Dict (sd_data C07_ex.sc)) = true /\
+  get_dpath (Dict (sd_data C07_ex.sc)) [C07_ex.ka; C07_ex.kb] = Some C07_ex.one /\
+  sd_data (sd_clean C07_ex.sc) <> sd_data C07_ex.sc /\
+  get_dpath (Dict (sd_data C07_ex.sc)) [C07_ex.ka] <> get_dpath (Dict (sd_data (sd_clean C07_ex.sc))) [C07_ex.ka] /\
+  get_dpath (Dict (sd_data (sd_clean C07_ex.sc))) [C07_ex.ka; C07_ex.kb] = Some C07_ex.one /\
+  get_dpath (Dict (sd_data (sd_clean C07_ex.sc))) [C07_ex.kc] = Some C07_ex.two.
+Proof.
+  assert (H1 : forallb ordinary_key [C07_ex.ka; C07_ex.kb] = true) by (vm_compute; reflexivity).
+  assert (H1' : forallb ordinary_key [C07_ex.kc] = true) by (vm_compute; reflexivity).
+  assert (H2 : wf (Dict (sd_data C07_ex.sc)) = true) by (vm_compute; reflexivity).
+  assert (H3 : get_dpath (Dict (sd_data C07_ex.sc)) [C07_ex.ka; C07_ex.kb] = Some C07_ex.one) by (vm_compute; reflexivity).
+  assert (H3' : get_dpath (Dict (sd_data C07_ex.sc)) [C07_ex.kc] = Some C07_ex.two) by (vm_compute; reflexivity).
+  assert (H4 : forall kvs, C07_ex.one <> Dict kvs) by (intros kvs; discriminate).
+  assert (H4' : forall kvs, C07_ex.two <> Dict kvs) by (intros kvs; discriminate).
+  refine (conj H1 (conj H2 (conj H3 (conj _ (conj _
+           (conj (C07_clean_keeps_ordinary_paths C07_ex.sc _ _ H1 H2 H3 H4)
+                 (C07_clean_keeps_ordinary_paths C07_ex.sc _ _ H1' H2 H3' H4'))))))).
+  - vm_compute. discriminate.
+  - vm_compute. discriminate.
+Qed.
+
+(* merge keeps every existing leaf under ordinary keys for arbitrary states.  Side condition: the leaf is not a
+   top-level value that refers to its own key (dollar + key, after an EXPRESSION placeholder has been replaced by its
+   text) -- such an entry is replaced by merge on purpose; see C07_merge_self_reference_is_replaced below. *)
+Theorem C07_merge_keeps_any_state : forall s m o p v,
+  forallb ordinary_key p = true -> wf (Dict (sd_data s)) = true ->
+  get_dpath (Dict (sd_data s)) p = Some (Leaf v) ->
+  match p with [k] => circular k (insert_expression (Leaf v) (sd_expr s)) | _ => false end = false ->
+  get_dpath (Dict (sd_data (sd_merge s m o))) p = Some (Leaf v).
+Proof. exact sd_merge_keeps_any_state. Qed.
+Print Assumptions C07_merge_keeps_any_state.
+
+Module C07_ex2.
+  (* merged into sc: clashes with a.b and c, new entries a.d and d, and a placeholder entry of its own *)
+  Definition m2 : list (key * tree) :=
+    [(C07_ex.ka, Dict [(C07_ex.kb, C07_ex.two); (C07_ex.kd, C07_ex.two)]); (C07_ex.kc, C07_ex.one);
+     C07_ex.ph "BLOCKCOMMENT000007"; (C07_ex.kd, C07_ex.one); (C07_ex.kb, Lst [C07_ex.one])].
+  (* m2's block comment has the text of sc's: the clean-up after the merge deletes m2's placeholder entry again *)
+  Definition o2 : sdict := mkSD [] [] [(7%N, of_string "/* c */")] [] [].
+  (* a: top-level value referring to its own key;  b: the same through the expressions table *)
+  Definition sref : sdict :=
+    mkSD [(C07_ex.ka, Leaf (SStr (of_string "$a + 1"))); (C07_ex.kb, Leaf (SStr (of_string "EXPRESSION000000")));
+          (C07_ex.kc, Dict [(C07_ex.kc, Leaf (SStr (of_string "$c")))])]
+         [] [] [] [(0%N, (of_string "$b", of_string "EXPRESSION000000"))].
+  Definition mref : list (key * tree) :=
+    [(C07_ex.ka, C07_ex.one); (C07_ex.kb, C07_ex.two); (C07_ex.kc, Dict [(C07_ex.kc, C07_ex.one)])].
+End C07_ex2.
+
+(* non-vacuity: sc is NOT ordinary (C07_merge_model is silent about it); the nested leaf a.b (clashing with m2's a.b)
+   and the leaf c (clashing with m2's c) meet the hypotheses and survive; the merge and its clean-up both do something *)
+Example C07_merge_keeps_any_state_nonvacuous :
+  ordinary_kvs (sd_data C07_ex.sc) = false /\
+  forallb ordinary_key [C07_ex.ka; C07_ex.kb] = true /\ wf (Dict (sd_data C07_ex.sc)) = true /\
+  get_dpath (Dict (sd_data C07_ex.sc)) [C07_ex.ka; C07_ex.kb] = Some (Leaf (SInt 1)) /\
+  get_dpath (Dict C07_ex2.m2) [C07_ex.ka; C07_ex.kb] = Some (Leaf (SInt 2)) /\
+  get_dpath (Dict (sd_data (sd_merge C07_ex.sc C07_ex2.m2 (Some C07_ex2.o2)))) [C07_ex.ka; C07_ex.kb] = Some (Leaf (SInt 1)) /\
+  get_dpath (Dict (sd_data (sd_merge C07_ex.sc C07_ex2.m2 (Some C07_ex2.o2)))) [C07_ex.kc] = Some (Leaf (SInt 2)) /\
+  sd_data (sd_merge C07_ex.sc C07_ex2.m2 (Some C07_ex2.o2)) =
+    [C07_ex.ph "BLOCKCOMMENT000001";
+     (C07_ex.ka, Dict [C07_ex.ph "LINECOMMENT000003"; (C07_ex.kb, C07_ex.one); (C07_ex.kd, C07_ex.two)]);
+     (C07_ex.kc, C07_ex.two); (C07_ex.kd, C07_ex.one); (C07_ex.kb, Lst [C07_ex.one])].
+Proof.
+  assert (H1 : forallb ordinary_key [C07_ex.ka; C07_ex.kb] = true) by (vm_compute; reflexivity).
+  assert (H1' : forallb ordinary_key [C07_ex.kc] = true) by (vm_compute; reflexivity).
+  assert (H2 : wf (Dict (sd_data C07_ex.sc)) = true) by (vm_compute; reflexivity).
+  assert (H3 : get_dpath (Dict (sd_data C07_ex.sc)) [C07_ex.ka; C07_ex.kb] = Some (Leaf (SInt 1))) by (vm_compute; reflexivity).
+  assert (H3' : get_dpath (Dict (sd_data C07_ex.sc)) [C07_ex.kc] = Some (Leaf (SInt 2))) by (vm_compute; reflexivity).
+  assert (H4 : match [C07_ex.kc] with [k] => circular k (insert_expression (Leaf (SInt 2)) (sd_expr C07_ex.sc)) | _ => false end = false)
+    by (vm_compute; reflexivity).
+  refine (conj _ (conj H1 (conj H2 (conj H3 (conj _
+           (conj (C07_merge_keeps_any_state C07_ex.sc C07_ex2.m2 (Some C07_ex2.o2) _ _ H1 H2 H3 eq_refl)
+           (conj (C07_merge_keeps_any_state C07_ex.sc C07_ex2.m2 (Some C07_ex2.o2) _ _ H1' H2 H3' H4) _))))))).
+  - vm_compute. reflexivity.
+  - vm_compute. reflexivity.
+  - vm_compute. reflexivity.
+Qed.
+
+(* why the side condition is there (the modelled library does this on purpose: an entry whose value refers to its own
+   key is the one thing merge overwrites).  a and b are replaced; the nested c.c is not tested and stays. *)
+Example C07_merge_self_reference_is_replaced :
+  wf (Dict (sd_data C07_ex2.sref)) = true /\
+  match [C07_ex.ka] with [k] => circular k (insert_expression (Leaf (SStr (of_string "$a + 1"))) (sd_expr C07_ex2.sref)) | _ => false end = true /\
+  match [C07_ex.kb] with [k] => circular k (insert_expression (Leaf (SStr (of_string "EXPRESSION000000"))) (sd_expr C07_ex2.sref)) | _ => false end = true /\
+  sd_data (sd_merge C07_ex2.sref C07_ex2.mref None) =
+    [(C07_ex.ka, C07_ex.one); (C07_ex.kb, C07_ex.two); (C07_ex.kc, Dict [(C07_ex.kc, Leaf (SStr (of_string "$c")))])] /\
+  get_dpath (Dict (sd_data (sd_merge C07_ex2.sref C07_ex2.mref None))) [C07_ex.kc; C07_ex.kc] = Some (Leaf (SStr (of_string "$c"))).
+Proof.
+  assert (H1 : forallb ordinary_key [C07_ex.kc; C07_ex.kc] = true) by (vm_compute; reflexivity).
+  assert (H2 : wf (Dict (sd_data C07_ex2.sref)) = true) by (vm_compute; reflexivity).
+  assert (H3 : get_dpath (Dict (sd_data C07_ex2.sref)) [C07_ex.kc; C07_ex.kc] = Some (Leaf (SStr (of_string "$c")))) by (vm_compute; reflexivity).
+  refine (conj H2 (conj _ (conj _ (conj _ (C07_merge_keeps_any_state C07_ex2.sref C07_ex2.mref None _ _ H1 H2 H3 eq_refl)))));
+    vm_compute; reflexivity.
+Qed.
+
+(* a top-level ordinary key of m that s lacks is present afterwards with m's value, for every value that is not a dict
+   (a dict value is added too, but goes through the clean-up) *)
+Theorem C07_merge_adds_any_state : forall s m o k x,
+  ordinary_key k = true -> wf (Dict (sd_data s)) = true -> wf (Dict m) = true ->
+  alookup k (sd_data s) = None -> alookup k m = Some x -> (forall kvs, x <> Dict kvs) ->
+  alookup k (sd_data (sd_merge s m o)) = Some x.
+Proof. exact sd_merge_adds_any_state. Qed.
+Print Assumptions C07_merge_adds_any_state.
+
+(* non-vacuity: d (a leaf) and b (a list) are new top-level keys of m2 *)
+Example C07_merge_adds_any_state_nonvacuous :
+  ordinary_key C07_ex.kd = true /\ ordinary_key C07_ex.kb = true /\
+  wf (Dict (sd_data C07_ex.sc)) = true /\ wf (Dict C07_ex2.m2) = true /\
+  alookup C07_ex.kd (sd_data C07_ex.sc) = None /\ alookup C07_ex.kb (sd_data C07_ex.sc) = None /\
+  alookup C07_ex.kd (sd_data (sd_merge C07_ex.sc C07_ex2.m2 (Some C07_ex2.o2))) = Some C07_ex.one /\
+  alookup C07_ex.kb (sd_data (sd_merge C07_ex.sc C07_ex2.m2 (Some C07_ex2.o2))) = Some (Lst [C07_ex.one]).
+Proof.
+  assert (H1 : ordinary_key C07_ex.kd = true) by (vm_compute; reflexivity).
+  assert (H1' : ordinary_key C07_ex.kb = true) by (vm_compute; reflexivity).
+  assert (H2 : wf (Dict (sd_data C07_ex.sc)) = true) by (vm_compute; reflexivity).
+  assert (H3 : wf (Dict C07_ex2.m2) = true) by (vm_compute; reflexivity).
+  assert (H4 : alookup C07_ex.kd (sd_data C07_ex.sc) = None) by (vm_compute; reflexivity).
+  assert (H4' : alookup C07_ex.kb (sd_data C07_ex.sc) = None) by (vm_compute; reflexivity).
+  assert (H5 : alookup C07_ex.kd C07_ex2.m2 = Some C07_ex.one) by (vm_compute; reflexivity).
+  assert (H5' : alookup C07_ex.kb C07_ex2.m2 = Some (Lst [C07_ex.one])) by (vm_compute; reflexivity).
+  refine (conj H1 (conj H1' (conj H2 (conj H3 (conj H4 (conj H4'
+           (conj (C07_merge_adds_any_state C07_ex.sc C07_ex2.m2 (Some C07_ex2.o2) _ _ H1 H2 H3 H4 H5 _)
+                 (C07_merge_adds_any_state C07_ex.sc C07_ex2.m2 (Some C07_ex2.o2) _ _ H1' H2 H3 H4' H5' _))))))));
+    intros kvs; discriminate.
+Qed.
